@@ -33,7 +33,7 @@ WantVisAs(line, cfg, tag) ==
   ELSE WantVis(line, cfg)
 
 \* The implementation-shaped model, run on the same history (drift report, never a verdict)
-IS(b) == INSTANCE Impl_Stream WITH Buf <- b, Fixes <- {"D1", "D14", "D2", "D18", "D19"}
+IS(b) == INSTANCE Impl_Stream WITH Buf <- b, Fixes <- {"D1", "D14", "D2", "D18", "D19", "D20"}
 RECURSIVE ImplRun(_, _, _, _)
 ImplRun(b, h, st, k) == IF k > Len(h) THEN st ELSE ImplRun(b, h, IS(b)!Step(st, k, h[k]), k + 1)
 ImplRows(e) == IS(e.cfg.buf)!Finish(ImplRun(e.cfg.buf, e.lines, IS(e.cfg.buf)!InitS, 1)).w
@@ -44,10 +44,6 @@ BlankSource(e, r) == LET ln == e.lines[r.k] IN
 WantFiles(d) == IF d[3] = "comparing" THEN <<d[1], d[2]>> ELSE IF d[1] = d[2] THEN <<d[1]>> ELSE IF d[2] = 0 THEN <<d[1]>> ELSE IF d[1] = 0 THEN <<d[2]>>
                 ELSE <<d[1], d[2]>>
 
-\* the file a hunk header names: the section's new path, or the old one for a deleted file
-RECURSIVE SecStart(_, _)
-SecStart(h, k) == IF k = 0 \/ IsStart(h[k]) THEN k ELSE SecStart(h, k - 1)
-HunkFile(h, k) == LET d == WantHeaderAt(h, SecStart(h, k)) IN IF d[2] = 0 THEN d[1] ELSE d[2]
 
 \* does observed row g satisfy what is wanted (w: a Row of Obs_Stream) for history h?
 RowMatches(h, cfg, w, g) ==
